@@ -18,3 +18,4 @@ pub mod sched;
 pub mod sysw;
 pub mod env;
 pub mod rpc;
+pub mod authhq;
